@@ -38,14 +38,15 @@ type Opts struct {
 }
 
 type Round struct {
-	Data  []byte `json:"-"`
-	Lazy  string `json:"generated_by,omitempty"` // big streams are materialised only while the case runs
-	Hex   string `json:"data,omitempty"`         // filled for descriptions (capped)
-	Len   int    `json:"len"`
-	Segs  []int  `json:"segs,omitempty"`
-	End   string `json:"end"`
-	Hold  int    `json:"hold_ms,omitempty"`
-	Pause int    `json:"pause_after_first_segment_ms,omitempty"` // the rest of the stream arrives later, on its own
+	Data  []byte   `json:"-"`
+	Lazy  string   `json:"generated_by,omitempty"` // big streams are materialised only while the case runs
+	Hex   string   `json:"data,omitempty"`         // filled for descriptions (capped)
+	Len   int      `json:"len"`
+	Segs  []int    `json:"segs,omitempty"`
+	End   string   `json:"end"`
+	Hold  int      `json:"hold_ms,omitempty"`
+	Pause int      `json:"pause_after_first_segment_ms,omitempty"` // the rest of the stream arrives later, on its own
+	Steps []H2Step `json:"h2_steps,omitempty"`
 }
 
 // Structured: what the generator knows about a well-formed response (needed to state the
